@@ -42,8 +42,9 @@ int main(void)
 		memset(&ti, 0, sizeof ti);
 		if (!strcmp(e, "TY")) { int r = -1; buf = read_unpacked(path, &sz); if (buf) r = xmp_test_module_from_memory(buf, sz, &ti); printf("TYPE %d %ld %s\n", r, buf ? sz : -1L, r == 0 ? ti.type : "-"); free(buf); puts("DONE"); fflush(stdout); continue; }
 		c = xmp_create_context();
-		if (!strncmp(e, "SW:", 3)) {
-			char *q = e + 3; int loaded = 0;
+		if (!strncmp(e, "SW:", 3) || !strncmp(e, "FX:", 3)) {
+			/* FX: the same byte edits, followed by a longer stretch of linear playback (effects act rows after they were read) */
+			char *q = e + 3; int loaded = 0; int linear = e[0] == 'F' ? 56 : 12;
 			buf = read_unpacked(path, &sz);
 			while (buf && *q) { long off = strtol(q, &q, 10); int val = 0, rel = 0; if (*q == '=') val = (int)strtol(q + 1, &q, 10); else if (*q == '+' || *q == '-') { rel = 1; val = (int)strtol(q, &q, 10); }
 				if (off >= 0 && off < sz) buf[off] = (unsigned char)(rel ? buf[off] + val : val); if (*q == ',') q++; else break; }
@@ -64,7 +65,7 @@ int main(void)
 					xmp_seek_time(c, (int)(seed % 50000)); xmp_play_frame(c);
 					xmp_set_row(c, (int)(seed % 64)); xmp_play_frame(c);
 					xmp_restart_module(c);
-					for (i = 0; i < 12; i++) { if (xmp_play_frame(c) != 0) break; xmp_get_frame_info(c, &fi); }
+					for (i = 0; i < linear; i++) { if (xmp_play_frame(c) != 0) break; xmp_get_frame_info(c, &fi); }
 					xmp_end_player(c);
 				}
 				xmp_release_module(c);
